@@ -198,7 +198,7 @@ static void check_batch(long base) {
         for (int a = 0; a < nt && !overl; a++) for (int b = 0; b < nt; b++) if (a != b && R[a].role && R[b].role && R[a].inv && R[b].inv && R[a].inv < R[b].resp && R[b].inv < R[a].resp) { overl = 1; break; }
         int bp = 0; buf[0] = 0;
         for (int t = 0; t < nt && bp < 1300; t++) if (R[t].role) bp += snprintf(buf + bp, sizeof buf - bp, "[t%d %s%s @%llu-%llu ->%p] ", t,
-                    R[t].role == R_SET ? "set" : R[t].role == R_GET ? "get" : R[t].role == R_POLL ? "poll+get" : "req", R[t].role == R_REQ ? (R[t].shape < 0 ? "(root)" : R[t].shape == 0 ? "(s0)" : R[t].shape == 1 ? "(s1)" : R[t].shape == 2 ? "(s2)" : "(s3)") : "",
+                    R[t].role == R_SET ? (R[t].nsets == 2 ? "set,set" : "set") : R[t].role == R_GET ? "get" : R[t].role == R_POLL ? "poll+get" : "req", R[t].role == R_REQ ? (R[t].shape < 0 ? "(root)" : R[t].shape == 0 ? "(s0)" : R[t].shape == 1 ? "(s1)" : R[t].shape == 2 ? "(s2)" : "(s3)") : "",
                     (unsigned long long)R[t].inv, (unsigned long long)R[t].resp, R[t].res);
         if (G.kind == 0) {
             void *V = NULL; int winner = -1, nset = 0; uint64_t min_set_inv = ~0ULL;
